@@ -56,7 +56,7 @@ Definition model_obs (k : gkind) (first tnum : N) (tid : str) (incl : bool) (mh 
   match k with
   | KNum => map code_of (run_h h (num_gate_step first tnum mh) (g_init incl) 0%nat l)
   | KId => map code_of (run_h h (id_gate_step tid mh) (g_init incl) 0%nat l)
-  | KIrrNum => map code_of (run_h h (irrnum_gate_step tnum mh) (g_init incl) 0%nat l)
+  | KIrrNum => map code_of (run_h h (irrnum_gate_step first tnum mh) (g_init incl) 0%nat l)
   | KIrrId => map code_of (run_h h (irrid_gate_step tid mh) (g_init incl) 0%nat l)
   | KRealtime => map code_of (run_h h realtime_gate_step false 0%nat l)
   | KMinFilter => map code_of (run_h h (min_filter_step tnum) tt 0%nat l)
@@ -148,7 +148,7 @@ Definition prop_check (k : gkind) (first tnum : N) (tid : str) (incl : bool) (mh
   match k with
   | KNum => check_latch always (T_num tnum) (I_num first tnum incl) (Some mh) hflags l os
   | KId => check_latch always (T_id tid) (I_id tid incl) (Some mh) hflags l os
-  | KIrrNum => check_latch is_irreversible (T_irrnum tnum) (I_irrnum tnum incl) (Some mh) hflags l os
+  | KIrrNum => check_latch is_irreversible (T_irrnum tnum) (I_irrnum first tnum incl) (Some mh) hflags l os
   | KIrrId => check_latch is_irreversible (T_irrid tid) (I_id tid incl) (Some mh) hflags l os
   | KRealtime => check_latch always ert always None hflags l os
   | KTimeGator => check_latch always ert always None [] l os
